@@ -36,8 +36,8 @@ class Model():
             if address.address in self.cells:
                 self.cells[address.address].value = value
             else:
-                self.cells[address.address] = xltypes.XLCell
-                (address.address, value)
+                self.cells[address.address] = xltypes.XLCell(
+                    address.address, value)
 
         else:
             raise TypeError(
